@@ -309,6 +309,47 @@ theorem unmatched_as_configured (o : O) (es : List (Event O Req)) (q : Req) (c :
       · exact ⟨r, ho⟩
       · exfalso; exact hall x hx ⟨by simp [sameKey, hk], hxr⟩
 
+/-- **the next unused recording for the key is served** (with or without reuse, after any history): the request is
+    answered with `r` exactly when `r` is the first pending recording, in recording order, that has a response and
+    whose key equals the request's key. -/
+theorem serves_first_match (o : O) (es : List (Event O Req)) (q : Req) (c : RCfg) (r : Rec Req) :
+    let s := (run hash o es).1
+    (request hash s q c).2 = .served r ↔
+      s.recorded.find? (fun x => decide (hash s.opts x.req = hash s.opts q) && x.hasResp) = some r := by
+  intro s
+  have h : Inv hash s := inv_run hash o es
+  by_cases hr : s.recorded = []
+  · rw [request_inactive hash h hr, hr]; simp
+  · cases hc : (c.reuse || c.nopop) with
+    | true => exact (reuse_serves_first hash o es q c hc).2 r
+    | false =>
+      rcases request_nr hash h hr q c hc with ⟨pre, r', post, e1, hpre, hk, hrr, ho, _, _, _⟩ | ⟨hall, ho, _, _, _⟩
+      · have hfind : s.recorded.find? (fun x => decide (hash s.opts x.req = hash s.opts q) && x.hasResp) = some r' := by
+          rw [List.find?_eq_some_iff_append]
+          refine ⟨by simpa [sameKey, hrr] using hk, pre, post, e1, ?_⟩
+          intro a ha
+          have := hpre a ha
+          simp only [sameKey, decide_eq_true_eq] at this
+          cases hd : (decide (hash s.opts a.req = hash s.opts q) && a.hasResp) with
+          | false => rfl
+          | true =>
+            exfalso; apply this
+            simpa using hd
+        rw [ho, hfind]
+        constructor
+        · intro h'; cases h'; rfl
+        · intro h'; cases h'; rfl
+      · rw [ho]
+        have hnone : s.recorded.find? (fun x => decide (hash s.opts x.req = hash s.opts q) && x.hasResp) = none := by
+          rw [List.find?_eq_none]
+          intro a ha hd
+          apply hall a ha
+          simpa [sameKey] using hd
+        rw [hnone]
+        constructor
+        · intro h'; exact absurd h' (unmatched_ne_served c r)
+        · intro h'; cases h'
+
 /-- the configured treatment of unmatched requests, spelled out -/
 theorem unmatched_table (c : RCfg) :
     ((c.killExtra = true ∨ c.extra = .kill) → (unmatched c : Outcome Req) = .killed) ∧
@@ -458,6 +499,102 @@ theorem key_eq_iff_fields (o : HashOpts) (a b : ReqF) :
     simp only [hnil, List.not_mem_nil, false_imp_iff, implies_true, and_true]
     try (constructor <;> (intro h; simp only [h, and_self])))
 
+/-- the statement's notion of a matching request, spelled out on the request parts: `a` and `b` agree on every part
+    that the options `o` do not ignore -/
+def Agree (o : HashOpts) (a b : ReqF) : Prop :=
+  a.scheme = b.scheme ∧ a.method = b.method ∧ a.path = b.path ∧
+  a.query.filter (fun p => !o.ignoreParams.contains p.1) = b.query.filter (fun p => !o.ignoreParams.contains p.1) ∧
+  (o.ignoreHost = false → a.host = b.host) ∧
+  (o.ignorePort = false → a.port = b.port) ∧
+  (o.ignoreContent = false → contentOf o a = contentOf o b) ∧
+  (∀ i ∈ o.useHeaders, hdrGet a.headers i = hdrGet b.headers i)
+
+/-- requests that agree on all non-ignored parts have the same key — for every option combination -/
+theorem agreeing_parts_same_key (o : HashOpts) (a b : ReqF) : Agree o a b ↔ keyOf o a = keyOf o b :=
+  (key_eq_iff_fields o a b).symm
+
+/-- what "agree on the content" means under each payload option: with payload parameters to ignore and a
+    non-empty form of the same kind, the non-ignored form fields must agree (two forms whose fields are all ignored
+    agree whatever their kind); otherwise the raw bodies must be equal -/
+theorem content_agree_cases (o : HashOpts) (a b : ReqF) :
+    (o.ignorePayloadParams = [] → (contentOf o a = contentOf o b ↔ a.body = b.body)) ∧
+    (o.ignorePayloadParams ≠ [] → a.multipart ≠ [] → b.multipart ≠ [] →
+      (contentOf o a = contentOf o b ↔
+        a.multipart.filter (fun p => !o.ignorePayloadParams.contains p.1)
+          = b.multipart.filter (fun p => !o.ignorePayloadParams.contains p.1))) ∧
+    (o.ignorePayloadParams ≠ [] → a.multipart = [] → b.multipart = [] → a.urlencoded ≠ [] → b.urlencoded ≠ [] →
+      (contentOf o a = contentOf o b ↔
+        a.urlencoded.filter (fun p => !o.ignorePayloadParams.contains p.1)
+          = b.urlencoded.filter (fun p => !o.ignorePayloadParams.contains p.1))) ∧
+    (a.multipart = [] → a.urlencoded = [] → b.multipart = [] → b.urlencoded = [] →
+      (contentOf o a = contentOf o b ↔ a.body = b.body)) := by
+  have inj1 : ∀ (l1 l2 : List (Bytes × Bytes)) (t : Bool),
+      l1.map (fun p => (t, p.1, p.2)) = l2.map (fun p => (t, p.1, p.2)) ↔ l1 = l2 := by
+    intro l1 l2 t
+    constructor
+    · intro h
+      have := congrArg (List.map (fun (p : Bool × Bytes × Bytes) => (p.2.1, p.2.2))) h
+      simpa [List.map_map, Function.comp_def] using this
+    · intro h; rw [h]
+  refine ⟨?_, ?_, ?_, ?_⟩
+  · intro h; simp [contentOf, h]
+  · intro h ha hb
+    have h' : o.ignorePayloadParams.isEmpty = false := by cases hq : o.ignorePayloadParams <;> simp_all
+    have ha' : a.multipart.isEmpty = false := by cases hq : a.multipart <;> simp_all
+    have hb' : b.multipart.isEmpty = false := by cases hq : b.multipart <;> simp_all
+    simp only [contentOf, h', ha', hb', Bool.not_false, Bool.and_self, if_true, Content.form.injEq]
+    exact inj1 _ _ true
+  · intro h ha hb hua hub
+    have h' : o.ignorePayloadParams.isEmpty = false := by cases hq : o.ignorePayloadParams <;> simp_all
+    have hua' : a.urlencoded.isEmpty = false := by cases hq : a.urlencoded <;> simp_all
+    have hub' : b.urlencoded.isEmpty = false := by cases hq : b.urlencoded <;> simp_all
+    simp only [contentOf, h', ha, hb, hua', hub', List.isEmpty_nil, Bool.not_true, Bool.and_false, Bool.false_eq_true,
+      if_false, Bool.not_false, Bool.and_self, if_true, Content.form.injEq]
+    exact inj1 _ _ false
+  · intro h1 h2 h3 h4
+    simp [contentOf, h1, h2, h3, h4]
+
+/-- **the property with the real key**: instantiate the replay model with `keyOf` (the transcription of `_hash`'s
+    field selection).  After ANY history of loads / adds / clears / option changes / requests and for EVERY option
+    combination, a request `q` is answered with recording `r` exactly when `r` is the first pending recording, in
+    recording order, that has a response and agrees with `q` on all parts that the current options do not ignore. -/
+theorem agreeing_request_served_next (o : HashOpts) (es : List (Event HashOpts ReqF)) (q : ReqF) (c : RCfg)
+    (r : Rec ReqF) :
+    let s := (run keyOf o es).1
+    (request keyOf s q c).2 = .served r ↔
+      ∃ pre post, s.recorded = pre ++ r :: post ∧ r.hasResp = true ∧ Agree s.opts r.req q ∧
+        ∀ x ∈ pre, ¬ (Agree s.opts x.req q ∧ x.hasResp = true) := by
+  intro s
+  have hsf : (request keyOf s q c).2 = .served r ↔
+      s.recorded.find? (fun x => decide (keyOf s.opts x.req = keyOf s.opts q) && x.hasResp) = some r :=
+    serves_first_match keyOf o es q c r
+  rw [hsf, List.find?_eq_some_iff_append]
+  constructor
+  · rintro ⟨hp, pre, post, e, hpre⟩
+    simp only [Bool.and_eq_true, decide_eq_true_eq] at hp
+    refine ⟨pre, post, e, hp.2, (agreeing_parts_same_key _ _ _).mpr hp.1, ?_⟩
+    intro x hx ⟨ha, hxr⟩
+    have := hpre x hx
+    simp [(agreeing_parts_same_key _ _ _).mp ha, hxr] at this
+  · rintro ⟨pre, post, e, hrr, ha, hpre⟩
+    refine ⟨by simp [(agreeing_parts_same_key _ _ _).mp ha, hrr], pre, post, e, ?_⟩
+    intro x hx
+    cases hd : (decide (keyOf s.opts x.req = keyOf s.opts q) && x.hasResp) with
+    | false => rfl
+    | true =>
+      exfalso
+      simp only [Bool.and_eq_true, decide_eq_true_eq] at hd
+      exact hpre x hx ⟨(agreeing_parts_same_key _ _ _).mpr hd.1, hd.2⟩
+
+/-- … and with the real key a recording is served only to a request that agrees with it on all non-ignored parts -/
+theorem served_only_if_parts_agree (o : HashOpts) (es : List (Event HashOpts ReqF)) (q : ReqF) (c : RCfg)
+    (r : Rec ReqF) :
+    let s := (run keyOf o es).1
+    (request keyOf s q c).2 = .served r → Agree s.opts r.req q := by
+  intro s h
+  obtain ⟨_, _, _, _, ha, _⟩ := (agreeing_request_served_next o es q c r).mp h
+  exact ha
+
 /-! ### the models are not vacuous -/
 section
 private def h0 : Nat → Nat → Nat := fun o r => if o = 0 then r else 0
@@ -477,6 +614,18 @@ example : (run h0 0 [.load [r1, r2], .request 10 nr, .request 10 nr, .request 10
 /-- response-less recordings are skipped; reuse serves the same recording again; kill when nothing matches -/
 example : (run h0 0 [.load [r4, r1, r3], .request 10 ru, .request 10 ru, .request 20 ru, .request 10 nr, .request 10 nr]).2
     = [.served r1, .served r1, .killed, .served r1, .served r3] := by decide
+/-- non-vacuity with the real key: ignoring the host makes a recording for another host match -/
+private def oAll : HashOpts := ⟨false, false, false, [], [], []⟩
+private def oNoHost : HashOpts := ⟨false, true, false, [], [], []⟩
+private def rqA : ReqF := ⟨[104], [71], [47], [], [97], 80, some [], [], [], []⟩
+private def rqB : ReqF := { rqA with host := [98] }
+private def recA : Rec ReqF := ⟨1, rqA, true, true⟩
+example : (run keyOf oAll [.load [recA], .request rqB nr]).2 = [.status 404] := by decide
+example : (run keyOf oAll [.load [recA], .configure oNoHost, .request rqB nr]).2 = [.served recA] := by decide
+example : Agree oNoHost rqA rqB ∧ ¬ Agree oAll rqA rqB := by
+  constructor
+  · simp [Agree, oNoHost, rqA, rqB, contentOf]
+  · simp [Agree, oAll, rqA, rqB]
 end
 
 end MitmVerif.Props.C52
